@@ -21,6 +21,8 @@ and Camera::render with view-space vertices through the library's perspective/or
 prior depth 0 or a constant background. Non-trivial = at least one asserted inside pixel and at least one triangle that is actually clipped or has non-uniform w; distinct by scene bit pattern.";
 
 pub const BAND: f64 = 0.02;
+/// sub-pixel sampling position tolerance of the f32 rasteriser (DESIGN D-i), in pixels
+pub const SAMPLE_POS_TOL: f64 = 0.002;
 
 fn dims(max: u32) -> BoxedStrategy<u32> {
     prop_oneof![1 => Just(1u32), 1 => Just(2u32), 3 => 3u32..=16, 4 => 8u32..=max].boxed()
@@ -221,14 +223,14 @@ pub fn check(sc: &Scene, obs: &mut Obs) -> Check {
     for y in 0..sc.bh {
         'px: for x in 0..sc.bw {
             let c = [x as f64 + 0.5, y as f64 + 0.5];
-            let mut cands: Vec<(usize, f64, f64)> = vec![]; // (tri, attr, rz)
+            let mut cands: Vec<(usize, f64, f64, f64, f64)> = vec![]; // (tri, attr, rz, |grad attr|, |grad rz|)
             for (t, r) in refs.iter().enumerate() {
                 match r.classify(sc, c, BAND) {
                     PixClass::Ambiguous => {
                         n_skip += 1;
                         continue 'px;
                     }
-                    PixClass::In { attr, rz } => cands.push((t, attr, rz)),
+                    PixClass::In { attr, rz, g_attr, g_rz } => cands.push((t, attr, rz, g_attr, g_rz)),
                     PixClass::Out => {}
                 }
             }
@@ -236,7 +238,7 @@ pub fn check(sc: &Scene, obs: &mut Obs) -> Check {
             let got_d = s.dep(x, y);
             let prior_c = s.prior_col(x, y);
             // winner
-            let mut winner: Option<(usize, f64, f64)> = None;
+            let mut winner: Option<(usize, f64, f64, f64, f64)> = None;
             if has_depth {
                 // depth test Less on reciprocals: a fragment passes iff stored < new
                 let mut all_rz: Vec<f64> = cands.iter().map(|c| c.2).collect();
@@ -279,7 +281,7 @@ pub fn check(sc: &Scene, obs: &mut Obs) -> Check {
                         );
                     }
                 }
-                Some((t, attr, rz)) => {
+                Some((t, attr, rz, g_attr, g_rz)) => {
                     n_in += 1;
                     ensure!(
                         got_c != prior_c,
@@ -288,7 +290,8 @@ pub fn check(sc: &Scene, obs: &mut Obs) -> Check {
                     );
                     let a = refs[t].attr;
                     let (lo, hi) = (a.iter().cloned().fold(f64::MAX, f64::min), a.iter().cloned().fold(f64::MIN, f64::max));
-                    let tol = 0.005 * (hi - lo) + 1e-5 * lo.abs().max(hi.abs()) + 1e-6;
+                    // D-i: the rasteriser samples each pixel within ~0.002 px of its centre; where the field is steep that shows
+                    let tol = 0.005 * (hi - lo) + 1e-5 * lo.abs().max(hi.abs()) + 1e-6 + SAMPLE_POS_TOL * g_attr;
                     let got = f32_of(got_c) as f64;
                     let e = (got - attr).abs();
                     if hi - lo > 1e-3 {
@@ -301,8 +304,10 @@ pub fn check(sc: &Scene, obs: &mut Obs) -> Check {
                     );
                     if has_depth {
                         let ed = (got_d as f64 - rz).abs() / rz;
-                        obs.max("depth-error relative (bound 0.002)", ed);
-                        ensure!(ed <= 0.002, "wrong-depth", "pixel ({x},{y}) inside triangle {t}: stored reciprocal depth {got_d} but 1/w = {rz:.7}");
+                        if g_rz * SAMPLE_POS_TOL < 0.0002 * rz {
+                            obs.max("depth-error relative (bound 0.002)", ed);
+                        }
+                        ensure!(ed <= 0.002 + SAMPLE_POS_TOL * g_rz / rz, "wrong-depth", "pixel ({x},{y}) inside triangle {t}: stored reciprocal depth {got_d} but 1/w = {rz:.7}");
                     }
                 }
             }
